@@ -67,7 +67,8 @@ Definition disjoint (p q : path) : bool := negb (is_prefix p q) && negb (is_pref
 Inductive outc :=
 | OStatus (code : N)
 | OData (code : N) (body : string)
-| ONames (code : N) (l : list string).
+| ONames (code : N) (l : list string)
+| OStat (isdir : bool) (size : N).
 
 (** A call anchored at a root: a function of the subtree at the root. *)
 Definition sem_t := node -> node * outc.
@@ -80,7 +81,7 @@ Definition exec (c : call) (t : node) : node * option outc :=
    match sub (fst c) t with Some m => Some (snd (snd c m)) | None => None end).
 
 (** Calls tagged with the number of the program (client goroutine) they belong to. *)
-Definition tcall := (nat * call)%type.
+Notation tcall := (nat * call)%type (only parsing).
 
 Fixpoint runs (s : list tcall) (t : node) : node * list (nat * option outc) :=
   match s with
@@ -111,8 +112,10 @@ Definition calls_of (i : nat) (progs : list (nat * list call)) : list call :=
 Definition is_interleaving (s : list tcall) (progs : list (nat * list call)) : Prop :=
   forall i, proj i s = calls_of i progs.
 
-(** * Concrete calls (instances of [sem_t]): WebDAV-like operations on paths
-    relative to the root. *)
+(** * Concrete calls (instances of [sem_t]): the operations of webdav.Client on
+    paths relative to the root, with the answers webdav.Handler{LocalFileSystem}
+    gives (server.go, fs_local.go, internal/server.go), in the order in which the Go
+    code makes its checks. *)
 
 Fixpoint remove_child (x : name) (ch : list (name * node)) : list (name * node) :=
   match ch with
@@ -136,18 +139,21 @@ Fixpoint split_last (p : path) : option (path * name) :=
 Definition child_names (ch : list (name * node)) : list string := map fst ch.
 
 Inductive fcall :=
-| FGet (q : path)
-| FList (q : path)
-| FPut (q : path) (content : string)
-| FMkcol (q : path)
-| FDelete (q : path)
-| FCopy (q q' : path)
-| FMove (q q' : path).
+| FGet (q : path)                          (* Client.Open + read to EOF *)
+| FList (q : path)                         (* Client.ReadDir(q, false) *)
+| FStat (q : path)                         (* Client.Stat *)
+| FPut (q : path) (content : string)       (* Client.Create, Write..., Close *)
+| FMkcol (q : path)                        (* Client.Mkdir *)
+| FDelete (q : path)                       (* Client.RemoveAll *)
+| FCopy (q q' : path) (deep overwrite : bool)   (* Client.Copy *)
+| FMove (q q' : path) (overwrite : bool).  (* Client.Move *)
 
-(** put [v] at relative path [q] inside [m]: the parent must be a collection *)
+(** put [v] at relative path [q] inside [m]: the parent must be a collection
+    (fs_local.go: createTemp / checkCopyMove / Mkdir fail otherwise).  [q = []]
+    replaces [m] itself. *)
 Definition place (q : path) (v : node) (m : node) : option node :=
   match split_last q with
-  | None => None
+  | None => Some v
   | Some (d, l) =>
     match sub d m with
     | Some (Dir _) =>
@@ -163,6 +169,28 @@ Definition unplace (q : path) (m : node) : node :=
     upd d (fun n => match n with Dir ch => Dir (remove_child l ch) | File _ => n end) m
   end.
 
+Definition exists_at (q : path) (m : node) : bool :=
+  match sub q m with Some _ => true | None => false end.
+
+(** Depth 0 copy of a collection copies the collection without its members *)
+Definition shallow (v : node) : node := match v with Dir _ => Dir [] | File _ => v end.
+
+Definition slen (s : string) : N := N.of_nat (String.length s).
+
+(** the checks of fs_local.go checkCopyMove, then the Overwrite handling *)
+Definition copy_move_checks (q q' : path) (overwrite : bool) (m : node) : option N :=
+  if is_prefix q q' || is_prefix q' q then Some 403
+  else if negb (exists_at q m) then Some 404
+  else
+    match split_last q' with
+    | None => Some 403
+    | Some (d, _) =>
+      match sub d m with
+      | Some (Dir _) => if exists_at q' m && negb overwrite then Some 412 else None
+      | _ => Some 409
+      end
+    end.
+
 Definition sem (c : fcall) : sem_t := fun m =>
   match c with
   | FGet q =>
@@ -175,6 +203,12 @@ Definition sem (c : fcall) : sem_t := fun m =>
     match sub q m with
     | Some (File _) => (m, ONames 207 [])
     | Some (Dir ch) => (m, ONames 207 (child_names ch))
+    | None => (m, OStatus 404)
+    end
+  | FStat q =>
+    match sub q m with
+    | Some (File s) => (m, OStat false (slen s))
+    | Some (Dir _) => (m, OStat true 0)
     | None => (m, OStatus 404)
     end
   | FPut q s =>
@@ -193,55 +227,184 @@ Definition sem (c : fcall) : sem_t := fun m =>
     end
   | FDelete q =>
     match q, sub q m with
-    | [], _ => (m, OStatus 403)
+    | [], _ => (m, OStatus 403)   (* removing the anchor itself: outside the family, see [fcall_wf] *)
     | _, Some _ => (unplace q m, OStatus 204)
     | _, None => (m, OStatus 404)
     end
-  | FCopy q q' =>
-    match sub q m with
-    | None => (m, OStatus 404)
-    | Some v =>
-      let existed := match sub q' m with Some _ => true | None => false end in
-      match place q' v m with
-      | Some m' => (m', OStatus (if existed then 204 else 201))
+  | FCopy q q' deep ow =>
+    match copy_move_checks q q' ow m, sub q m with
+    | Some code, _ => (m, OStatus code)
+    | None, None => (m, OStatus 404)
+    | None, Some v =>
+      match place q' (if deep then v else shallow v) m with
+      | Some m' => (m', OStatus (if exists_at q' m then 204 else 201))
       | None => (m, OStatus 409)
       end
     end
-  | FMove q q' =>
-    match q, sub q m with
-    | [], _ => (m, OStatus 403)
-    | _, None => (m, OStatus 404)
-    | _, Some v =>
-      let existed := match sub q' m with Some _ => true | None => false end in
+  | FMove q q' ow =>
+    match copy_move_checks q q' ow m, sub q m with
+    | Some code, _ => (m, OStatus code)
+    | None, None => (m, OStatus 404)
+    | None, Some v =>
       match place q' v (unplace q m) with
-      | Some m' => (m', OStatus (if existed then 204 else 201))
+      | Some m' => (m', OStatus (if exists_at q' m then 204 else 201))
       | None => (m, OStatus 409)
       end
     end
   end.
+
+(** the one request the anchored form cannot express: deleting the anchor *)
+Definition fcall_wf (c : fcall) : bool :=
+  match c with FDelete [] => false | _ => true end.
 
 Definition at_root (p : path) (c : fcall) : call := (p, sem c).
 
-(** * Verdicts for the differential check (harness part b)
+(** * The concurrent workload of the correspondence check (harness part "conc")
 
-    For every client goroutine the harness reports what each of its operations
-    answered and its final subtree, once while all goroutines ran concurrently on
-    one handler and once when its program ran alone; [C18_alone] says these must be
-    equal.  Both are lists of canonical items (status code, digest string). *)
-Definition item := (N * string)%type.
+    Client goroutine number i works below the collection [cl_name] of the served
+    root, which initially holds [cl_tree], and issues [cl_ops] one after another;
+    all goroutines share one webdav.Client and one webdav.Handler. *)
+Record client := { cl_name : name; cl_tree : node; cl_ops : list fcall }.
 
-Fixpoint items_eqb (a b : list item) : bool :=
+Definition init_tree (cs : list client) : node :=
+  Dir (map (fun c => (cl_name c, cl_tree c)) cs).
+
+Fixpoint number {A} (n : nat) (l : list A) : list (nat * A) :=
+  match l with [] => [] | a :: r => (n, a) :: number (S n) r end.
+
+Definition prog_of (c : client) : list call := map (at_root [cl_name c]) (cl_ops c).
+
+Definition progs_of (cs : list client) : list (nat * list call) := number 0 (map prog_of cs).
+
+(** what the model expects of ANY interleaving (ConcurrentProofs.expected_any_interleaving):
+    the result of running the programs one after another *)
+Definition expected (cs : list client) : node * list (nat * option outc) :=
+  runs (seq_schedule (progs_of cs)) (init_tree cs).
+
+(** ... and of one program run alone on the same initial tree *)
+Definition expected_alone (cs : list client) (i : nat) (c : client) : node * list (nat * option outc) :=
+  runs (map (fun x => (i, x)) (prog_of c)) (init_tree cs).
+
+(** ** Canonical form: members sorted by name (byte order), listings too *)
+Fixpoint insert_child (kv : name * node) (l : list (name * node)) : list (name * node) :=
+  match l with
+  | [] => [kv]
+  | (k, v) :: r => if String.leb (fst kv) k then kv :: l else (k, v) :: insert_child kv r
+  end.
+
+Fixpoint canon (n : node) : node :=
+  match n with
+  | File s => File s
+  | Dir ch =>
+    Dir ((fix go (l : list (name * node)) : list (name * node) :=
+            match l with
+            | [] => []
+            | (k, v) :: r => insert_child (k, canon v) (go r)
+            end) ch)
+  end.
+
+Fixpoint insert_name (x : string) (l : list string) : list string :=
+  match l with
+  | [] => [x]
+  | y :: r => if String.leb x y then x :: l else y :: insert_name x r
+  end.
+
+Definition sort_names (l : list string) : list string := fold_right insert_name [] l.
+
+Definition canon_outc (o : outc) : outc :=
+  match o with ONames c l => ONames c (sort_names l) | _ => o end.
+
+Fixpoint names_eqb (a b : list string) : bool :=
   match a, b with
   | [], [] => true
-  | (c1, s1) :: a', (c2, s2) :: b' => (c1 =? c2) && String.eqb s1 s2 && items_eqb a' b'
+  | x :: a', y :: b' => String.eqb x y && names_eqb a' b'
   | _, _ => false
   end.
 
-Record conc_obs := {
-  co_conc_resp : list item; co_conc_tree : list item;
-  co_alone_resp : list item; co_alone_tree : list item;
-  co_stray : bool }.     (* something appeared outside every client's subtree *)
+Fixpoint node_eqb (a b : node) : bool :=
+  match a, b with
+  | File s, File t => String.eqb s t
+  | Dir ca, Dir cb =>
+    (fix go (l1 l2 : list (name * node)) : bool :=
+       match l1, l2 with
+       | [], [] => true
+       | (k1, v1) :: r1, (k2, v2) :: r2 => String.eqb k1 k2 && node_eqb v1 v2 && go r1 r2
+       | _, _ => false
+       end) ca cb
+  | _, _ => false
+  end.
 
-Definition conc_agrees (o : conc_obs) : bool :=
-  items_eqb (co_conc_resp o) (co_alone_resp o) &&
-  items_eqb (co_conc_tree o) (co_alone_tree o) && negb (co_stray o).
+Definition outc_eqb (a b : outc) : bool :=
+  match a, b with
+  | OStatus x, OStatus y => x =? y
+  | OData x s, OData y t => (x =? y) && String.eqb s t
+  | ONames x l, ONames y k => (x =? y) && names_eqb l k
+  | OStat d n, OStat e k => Bool.eqb d e && (n =? k)
+  | _, _ => false
+  end.
+
+Definition opt_eqb {A} (f : A -> A -> bool) (a b : option A) : bool :=
+  match a, b with
+  | None, None => true
+  | Some x, Some y => f x y
+  | _, _ => false
+  end.
+
+Fixpoint list_eqb {A} (f : A -> A -> bool) (a b : list A) : bool :=
+  match a, b with
+  | [], [] => true
+  | x :: a', y :: b' => f x y && list_eqb f a' b'
+  | _, _ => false
+  end.
+
+(** What the harness reports per client goroutine (already in canonical form: the
+    snapshot sorts members, listings are sorted): the answers its operations got
+    and its final subtree, once while all goroutines ran at once on one handler
+    through one client, once when its program ran alone from the same initial tree. *)
+Record client_obs := {
+  co_conc : list (option outc); co_conc_tree : option node;
+  co_alone : list (option outc); co_alone_tree : option node }.
+
+Record conc_obs := {
+  co_clients : list client_obs;
+  co_stray : bool;        (* something other than the clients' collections was left under the served root *)
+  co_hang : bool }.       (* watchdog fired *)
+
+Definition canon_outs (l : list (option outc)) : list (option outc) := map (option_map canon_outc) l.
+
+Definition outs_eqb := list_eqb (opt_eqb outc_eqb).
+Definition tree_eqb := opt_eqb node_eqb.
+
+Fixpoint distinct (l : list name) : bool :=
+  match l with
+  | [] => true
+  | x :: r => negb (existsb (String.eqb x) r) && distinct r
+  end.
+
+Definition conc_wf (cs : list client) : bool :=
+  distinct (map cl_name cs) && forallb (fun c => forallb fcall_wf (cl_ops c)) cs.
+
+Fixpoint clients_agree (cs : list client) (i : nat) (rest : list client) (obs : list client_obs) : bool :=
+  match rest, obs with
+  | [], [] => true
+  | c :: rest', o :: obs' =>
+    let e := expected cs in
+    let a := expected_alone cs i c in
+    outs_eqb (co_conc o) (canon_outs (proj i (snd e))) &&
+    tree_eqb (co_conc_tree o) (option_map canon (sub [cl_name c] (fst e))) &&
+    outs_eqb (co_alone o) (canon_outs (proj i (snd a))) &&
+    tree_eqb (co_alone_tree o) (option_map canon (sub [cl_name c] (fst a))) &&
+    clients_agree cs (S i) rest' obs'
+  | _, _ => false
+  end.
+
+(** [conc_agrees]: the implementation did what the model says, concurrently and alone *)
+Definition conc_agrees (cs : list client) (o : conc_obs) : bool :=
+  negb (co_hang o) && negb (co_stray o) && clients_agree cs 0 cs (co_clients o).
+
+(** [conc_spec_ok]: the property itself — every goroutine got concurrently exactly
+    the answers and the effect it gets alone, and nothing else was touched *)
+Definition conc_spec_ok (o : conc_obs) : bool :=
+  negb (co_hang o) && negb (co_stray o) &&
+  forallb (fun c => outs_eqb (co_conc c) (co_alone c) && tree_eqb (co_conc_tree c) (co_alone_tree c))
+          (co_clients o).
